@@ -13,7 +13,7 @@ from .common import evaluator, method_or_fail
 
 EXPLANATION = (
     'Decides from source, for every history of constructions and assignments: (R1) every _params name of every concrete region '
-    'class resolves in the MRO to a validating descriptor (reviewed: text, operator) and meta/visual resolve to the coercing '
+    'class resolves in the MRO to a validating descriptor (reviewed: operator) and meta/visual resolve to the coercing '
     'descriptors; (R2) in RegionAttribute.__set__ and its overrides validation dominates the store into instance.__dict__ (a '
     'rejected value leaves the object as it was), __delete__ always raises, every concrete _validate raises on its negative '
     'branch; (R3) instance.__dict__ / object.__setattr__ / setattr / vars() stores occur only in the descriptor; (R4+R9) the '
@@ -27,7 +27,7 @@ TRUSTED = ['isinstance, np.isscalar, np.isfinite, Quantity.isscalar, unit.physic
            'comparisons with NaN are False (IEEE)', 'data descriptors take precedence over the instance dict']
 ASSUMPTIONS = ['attribute assignment on a region goes through the class descriptors (no __setattr__ override in the package)']
 
-PARAM_EXEMPT = {'text': 'free-form string (any object is printable)', 'operator': 'checked callable in the constructor'}
+PARAM_EXEMPT = {'operator': 'checked callable in the constructor'}
 
 
 def r1(ctx):
@@ -169,6 +169,7 @@ EXPECT = {
                             "+(attr:physical_type(attr:unit(value)) == 'angle')", '+(0 < value)',
                             '+bool(numpy.isfinite(value))'],
     'RegionType': ['+bool(isinstance(value, attr:regionclass(self)))'],
+    'RegionText': ['+bool(isinstance(value, str))'],
     'RegionMetaDescr': ['+bool(isinstance(value, RegionMeta))'],
     'RegionVisualDescr': ['+bool(isinstance(value, RegionVisual))'],
 }
@@ -436,6 +437,26 @@ def r6(ctx):
             ctx.bad(f'Meta.{name}', 'no-route', 'does not insert through the whitelisted __setitem__', f.loc())
         else:
             ctx.ok(f'Meta.{name}', 'inserts only through the whitelist test')
+    # aliases: entries live under the mapped key, so a presence test on the raw key misses them
+    for name, f in sorted(ci.methods.items()):
+        fn = f.node
+        ps = func_params(fn)
+        if 'key' not in ps:
+            continue
+        tests = [n for n in ast.walk(fn) if isinstance(n, ast.Compare) and isinstance(n.ops[0], (ast.In, ast.NotIn))
+                 and norm(n.left) == 'key' and norm(n.comparators[0]) == 'self']
+        if not tests:
+            continue
+        cfg = CFG(fn, exceptions=False)
+        maps = [i for i, st in cfg.stmt.items() if cfg.kind[i] == 'stmt' and isinstance(st, ast.Assign)
+                and norm(st.targets[0]) == 'key' and 'key_mapping' in norm(st.value)]
+        tn = [i for i, st in cfg.stmt.items() if cfg.kind[i] == 'test' and any(t is x for t in tests for x in ast.walk(st.test))]
+        if maps and tn and cfg.must_pass(tn, maps):
+            ctx.ok(f'Meta.{name}:alias', 'presence is tested on the mapped key')
+        else:
+            ctx.bad(f'Meta.{name}', 'alias-presence',
+                    f'`{norm(tests[0])}` tests the raw key although entries are stored under key_mapping[key]: '
+                    "RegionVisual(symbol='x').setdefault('point', 'y') overwrites the existing entry", f.loc(tests[0]))
     # the whitelist test raises KeyError
     f = ci.methods.get('__setitem__')
     if f is not None and 'KeyError' in (raises_in(f.node.body) or [None]):
@@ -544,6 +565,21 @@ def r7(ctx):
                                 guards.append([j for j, s3 in cfg.stmt.items() if s3 is cur][0])
                                 break
             target = [i for i, s3 in cfg.stmt.items() if s3 is st]
+            # the validating loop and the addition both read the iterable: it must have been materialised first
+            # (a one-shot iterator is empty by the time it is stored), i.e. rebound to list(...)/tuple(...) before
+            loops = [g for g in guards if isinstance(cfg.stmt[g], ast.For)]
+            params = set(func_params(fn))
+            if loops and isinstance(added, ast.Name) and added.id in params:
+                mats = [i for i, s3 in cfg.stmt.items() if cfg.kind[i] == 'stmt' and isinstance(s3, ast.Assign)
+                        and norm(s3.targets[0]) == aname and isinstance(s3.value, ast.Call)
+                        and (call_name(s3.value) or '') in ('list', 'tuple') and s3.value.args
+                        and norm(s3.value.args[0]) == aname]
+                if not (mats and cfg.must_pass(loops, mats)):
+                    ctx.bad(f'Regions.{name}', f'iterable-read-twice:{aname}',
+                            f'`{aname}` is iterated to validate its items and then added by `{norm(st)[:60]}`: a one-shot '
+                            'iterator/generator passes the check and is empty when it is stored (the regions are silently '
+                            'lost); it must be materialised once (list(...)) before both', f.loc(st))
+                    continue
             if guards and target and cfg.must_pass(target, guards):
                 ctx.ok(f'Regions.{name}:{aname}', 'isinstance(…, Region) test raising TypeError dominates the addition')
             else:
@@ -579,7 +615,7 @@ RULES = [
     RuleDef('R1', 'every parameter (and meta/visual) is a validating descriptor', r1, 23),
     RuleDef('R2', 'validate-then-store; delete refused; validators raise', r2, 12),
     RuleDef('R3', 'single raw writer of instance state', r3, 1),
-    RuleDef('R4', 'validator rejection predicates = documented domains (NaN-aware truth tables)', r4, 10),
+    RuleDef('R4', 'validator rejection predicates = documented domains (NaN-aware truth tables)', r4, 11),
     RuleDef('R5', 'cross-field constraints guard assignment too', r5, 7),
     RuleDef('R5b', 'annulus constructors reject exactly outer <= inner (unit-aware)', r5b, 8),
     RuleDef('R6', 'metadata whitelist at every inserting entry point', r6, 6),
